@@ -139,8 +139,10 @@ def smoke_unit(unit, workdir, n=200000, seed=0):
         f.write(d)
     flags = ['-std=c++17', '-O1', '-w', '-I' + os.path.join(REPO, 'fixed_lib', 'include'), '-I' + os.path.join(REPO, 'fixed_lib', 'src'),
              '-I' + os.path.join(VERIF, 'spec')]
-    if unit.cfg == 'abacus':
+    if unit.cfg in ('abacus', 'portable'):
         flags.append('-DFIXEDMATH_ENABLE_SQRT_ABACUS_ALGO')
+    if unit.cfg == 'portable':
+        flags.append('-DFIXEDMATH_VERIF_PORTABLE_MULTIPLY')
     exe = os.path.join(udir, 'driver')
     r = subprocess.run(['g++'] + flags + [dpath, obj, os.path.join(VERIF, 'spec', 'native_lib.cc'), '-o', exe], capture_output=True, text=True)
     if r.returncode != 0:
@@ -243,8 +245,10 @@ def smoke_unit_int(unit, workdir, n=40, seed=0):
     dpath = os.path.join(udir, 'driver.cc')
     open(dpath, 'w').write(d)
     flags = ['-std=c++17', '-O1', '-w', '-I' + os.path.join(REPO, 'fixed_lib', 'include'), '-I' + os.path.join(REPO, 'fixed_lib', 'src'), '-I' + os.path.join(VERIF, 'spec')]
-    if unit.cfg == 'abacus':
+    if unit.cfg in ('abacus', 'portable'):
         flags.append('-DFIXEDMATH_ENABLE_SQRT_ABACUS_ALGO')
+    if unit.cfg == 'portable':
+        flags.append('-DFIXEDMATH_VERIF_PORTABLE_MULTIPLY')
     exe = os.path.join(udir, 'driver')
     r = subprocess.run(['g++'] + flags + [dpath, os.path.join(VERIF, 'spec', 'native_lib.cc'), '-o', exe], capture_output=True, text=True)
     if r.returncode != 0:
